@@ -508,6 +508,36 @@ others `files()` (in order) -/
 def deliver (parts : List Part) : List (Bytes × Bytes) × List Part :=
   (mmOfList ((parts.filter (!·.hasMime)).map fun f => (f.name, f.data)), parts.filter (·.hasMime))
 
+/-! ### reading a part back (`file::data()`, `read_file`) -/
+
+/-- value returned by `file_buffer::underflow()` for the first byte of a refilled get area -/
+def underflowRet (c : UInt8) : Int :=
+  if Gen.underflowToIntType then (c.toNat : Int)
+  else if c.toNat ≥ 128 then (c.toNat : Int) - 256 else (c.toNat : Int)
+
+/-- reading a spilled part with `sbumpc`: the get area is refilled with blocks of
+`buffer_size` bytes from the temporary file; `underflow` returning -1 (EOF) ends the read -/
+def readBlocks : Nat → Bytes → Bytes
+  | 0, _ => []
+  | fuel + 1, rem =>
+    match rem.take Gen.fileBufferBlock with
+    | [] => []
+    | c :: blk => if underflowRet c == -1 then [] else c :: blk ++ readBlocks fuel (rem.drop Gen.fileBufferBlock)
+
+/-- what `seekg(off)` followed by reading to EOF returns for a part holding `data` -/
+def readBackFrom (memLimit : Nat) (data : Bytes) (off : Nat) : Bytes :=
+  if spilled { boundary := [], memLimit := memLimit, diskOk := true } data.length then
+    readBlocks (data.length + 1) (data.drop off)
+  else data.drop off
+
+/-- end of `on_content_progress` as executed: form fields go through `read_file` (which
+rewinds, or not, as the source says; `reader` = a multipart filter has read the part to its end
+in `on_data_ready`), files are read by the application from offset 0 -/
+def deliverR (memLimit : Nat) (reader : Bool) (parts : List Part) : List (Bytes × Bytes) × List Part :=
+  (mmOfList ((parts.filter (!·.hasMime)).map fun f =>
+      (f.name, readBackFrom memLimit f.data (if Gen.readFileRewinds then 0 else if reader then f.data.length else 0))),
+   (parts.filter (·.hasMime)).map fun f => { f with data := readBackFrom memLimit f.data 0 })
+
 /-! ### urlencoded -/
 
 def splitAt1 (d : UInt8) (s : Bytes) : Bytes × Option Bytes :=
@@ -664,7 +694,8 @@ def piecesUsed (cfg : Cfg) (cl : Nat) : RS → List Bytes → Nat
     | .ok s' => 1 + piecesUsed cfg cl s' cs
 
 /-- request input as the harness poses it. `flt`: 0 no filter, 1 raw_content_filter,
-2 multipart_filter (both installed by an asynchronous application before the body is read). -/
+2 multipart_filter, 4 a multipart_filter that reads every part through `file.data()` in its callbacks
+(all installed by an asynchronous application before the body is read). -/
 structure ReqIn where
   flt : Nat
   contentType : Bytes
@@ -676,6 +707,7 @@ structure ReqIn where
 
 structure ReqOut where
   seen : Seen
+  rd : Bytes := []     -- flt 4: everything the reading filter got out of `file.data()` in `on_data_ready`
   get : List (Bytes × Bytes)
   sizes : List Nat
   raw : Bytes
@@ -704,14 +736,21 @@ def requestIO (i : ReqIn) : ReqOut :=
     match start i.lim i.contentType i.cl with
     | .ok (.multipart cfg) =>
       let pieces := feedAll i.cl (max i.bufSize 1) true i.chunks
-      { seen := request i.lim i.contentType i.cl pieces, get := get,
+      let seen := match run cfg i.cl {} pieces with
+        | .error code => Seen.refused code
+        | .pending => .waiting
+        | .ready parts => let (post, files) := deliverR i.lim.memLimit (i.flt == 4) parts; .handled post files
+      { seen := seen, get := get,
+        rd := (match run cfg i.cl {} pieces with
+               | .ready parts => parts.flatMap fun f => readBackFrom i.lim.memLimit f.data 0
+               | _ => []),
         sizes := (pieces.take (piecesUsed cfg i.cl {} pieces)).map (·.length), raw := [],
-        events := if i.flt == 2 then evRun cfg i.cl {} pieces else [] }
+        events := if i.flt == 2 || i.flt == 4 then evRun cfg i.cl {} pieces else [] }
     | .ok (.full _) =>
       let pieces := feedAll i.cl (max i.bufSize 1) false i.chunks
       let seen := request i.lim i.contentType i.cl pieces
       { seen := seen, get := get, sizes := pieces.map (·.length), raw := [],
-        events := match seen with | .handled _ _ => if i.flt == 2 then [.endOfContent] else [] | _ => [] }
+        events := match seen with | .handled _ _ => if i.flt == 2 || i.flt == 4 then [.endOfContent] else [] | _ => [] }
     | _ => { seen := request i.lim i.contentType i.cl [], get := get, sizes := [], raw := [], events := [] }
 
 /-! ## tie to the generated constants -/
